@@ -174,7 +174,8 @@ def st_Assign(eng, node, st):
     hint = None
     if len(node.targets) == 1 and isinstance(node.targets[0], ast.Name):
         hint = eng.frame.contract.ghost.get('kind:' + node.targets[0].id)
-    st.hint_ek = calls.parse_kind(hint)[1] if hint else None
+    hk = calls.parse_kind(hint) if hint else None
+    st.hint_ek = hk[1] if (hk and len(hk) > 1) else None
     try:
         v = eng.ev(node.value, st)
     finally:
@@ -427,6 +428,8 @@ def havoc_names(eng, st, names):
 
 
 def havoc_val(eng, st, v, n):
+    if v.k == ('ghostset',):
+        return Val(('ghostset',), z3.Const(fresh_name(n), z3.ArraySort(I, B)))
     if v.t is not None and v.k != 'none':
         nv = eng.fresh(v.k, n)
         if is_ref_kind(v.k):
@@ -464,7 +467,7 @@ def assume_inv(eng, st, lc, extra_env=None):
         st.assume(eval_bool(eng, clause, env, st, old=(f.entry_env, f.entry_heap)))
 
 
-def run_loop(eng, node, st, ordn, lc, idxname, d, guard_fn, bind_fn, step_fn, ghost_init=None):
+def run_loop(eng, node, st, ordn, lc, idxname, d, guard_fn, bind_fn, step_fn, extra_names=()):
     """Generic cut-point treatment.  guard_fn(state)->z3 Bool, bind_fn(state) binds targets,
     step_fn(state) advances the index."""
     f = eng.frame
@@ -486,7 +489,7 @@ def run_loop(eng, node, st, ordn, lc, idxname, d, guard_fn, bind_fn, step_fn, gh
         mods_frame.append(frame_entry(eng, st, m))
     # 2. arbitrary iteration
     head = st.copy()
-    names = assigned_names(node.body) | set((lc.get('ghost') or {}).keys())
+    names = assigned_names(node.body) | set((lc.get('ghost') or {}).keys()) | set(extra_names)
     if idxname:
         names.add(idxname)
     na = z3.Int(fresh_name('alloc'))
@@ -613,69 +616,33 @@ def _sync(fn, idxname):
 
 
 def for_set(eng, node, st, ordn, lc, d):
-    """Iteration over a set of ints in an unknown order: ghost `_visited` (a set value); each
-    iteration binds the target to an arbitrary unvisited member."""
+    """Iteration over a set of ints in an UNKNOWN order.  Ghost `_visited` (membership array of the elements
+    already handled); each iteration binds the target to an arbitrary member not yet visited; the loop
+    ends when no unvisited member is left.  Contract clauses may use in_set(x, _visited) / in_set(x, S)."""
     if not isinstance(node.target, ast.Name):
         raise Unsupported("set iteration target")
-    sref = d.set
-    members0 = st.heap.rd('set:', sref.t)
-    vis = Val(('ghostset',), z3.K(I, False))
-    st.env['_visited'] = vis
-    st.env['_members'] = Val(('ghostset',), members0)
+    members0 = st.heap.rd('set:', d.set.t)
     tname = node.target.id
+    st.env['_visited'] = Val(('ghostset',), z3.K(I, z3.BoolVal(False)))
+    st.env[tname] = vint(z3.Int(fresh_name(tname)))
+    phase = []
 
     def guard(s):
-        x = z3.Int(fresh_name(tname))
-        s.env['_pick'] = vint(x)
-        return z3.And(z3.Select(members0, x), z3.Not(z3.Select(s.env['_visited'].t, x)))
-
-    def guard_exists(s):
-        # loop continues while an unvisited member exists; the chosen one is arbitrary
-        x = z3.Int(fresh_name(tname))
-        s.env['_pick'] = vint(x)
-        body = z3.And(z3.Select(members0, x), z3.Not(z3.Select(s.env['_visited'].t, x)))
-        return body
-
-    class D:
-        kind = 'set'
-        step = 1
-
-    def guard2(s):
-        if s.ghost.get('role') == 'exit':
+        # run_loop evaluates the guard first on the exit copy, then on the body copy
+        vis = s.env['_visited'].t
+        if not phase:
+            phase.append(1)
             y = z3.Int(fresh_name('y'))
-            return z3.Exists([y], z3.And(z3.Select(members0, y), z3.Not(z3.Select(s.env['_visited'].t, y))))
-        return guard_exists(s)
-
-    def bind(s):
-        s.env[tname] = s.env['_pick']
+            return z3.Exists([y], z3.And(z3.Select(members0, y), z3.Not(z3.Select(vis, y))))
+        x = z3.Int(fresh_name(tname))
+        s.env[tname] = vint(x)
+        return z3.And(z3.Select(members0, x), z3.Not(z3.Select(vis, x)))
 
     def step(s):
-        s.env['_visited'] = Val(('ghostset',), z3.Store(s.env['_visited'].t, s.env[tname].t, True))
+        s.env['_visited'] = Val(('ghostset',), z3.Store(s.env['_visited'].t, s.env[tname].t, z3.BoolVal(True)))
 
-    # run_loop calls guard on the exit copy first, then on the body copy
-    calls_seen = []
-
-    def guard3(s):
-        calls_seen.append(1)
-        if len(calls_seen) == 1:
-            y = z3.Int(fresh_name('y'))
-            return z3.Exists([y], z3.And(z3.Select(members0, y), z3.Not(z3.Select(s.env['_visited'].t, y))))
-        return guard_exists(s)
-    # '_visited' must be havocked at the head
-    lc = dict(lc)
-    gh = dict(lc.get('ghost') or {})
-    lc['ghost'] = gh
-    st.env[tname] = vint(z3.Int(fresh_name(tname)))
-    names_extra = {'_visited'}
-    orig = assigned_names
-
-    def patched(body):
-        return orig(body) | names_extra | {tname}
-    globals()['assigned_names'] = patched
-    try:
-        return run_loop(eng, node, st, ordn, lc, None, None, guard3, bind, step)
-    finally:
-        globals()['assigned_names'] = orig
+    return run_loop(eng, node, st, ordn, lc, None, None, guard, lambda s: None, step,
+                    extra_names={'_visited', tname})
 
 
 def st_While(eng, node, st):
